@@ -15,8 +15,10 @@ package main
 import (
 	"bytes"
 	"crypto"
+	"crypto/ecdsa"
 	"crypto/ed25519"
 	"crypto/rand"
+	"crypto/rsa"
 	"crypto/x509"
 	"crypto/x509/pkix"
 	"encoding/json"
@@ -460,6 +462,139 @@ func execNullTwin(r *recorder, in *Input) Result {
 			fmt.Sprintf("InTotoVerify: %s with null, %s with {} / []", vn, vt)})
 	}
 	return r.finish(vn)
+}
+
+// ---------- round 8: hostile CA entries ----------
+//
+//   hostile-ca-entries   validly signed layouts (and sublayouts) whose rootcas / intermediatecas entries carry in
+//                        keyval.certificate something that is not a certificate (PEM public / private keys, a certificate
+//                        request, CERTIFICATE blocks with broken DER, two blocks, empty, text, 1 MiB), and the same kinds as
+//                        caller-supplied intermediate PEMs, through InTotoVerify, InTotoVerifyWithDirectory and
+//                        LoadLayoutCertificates directly.  The verdict (OK / ERR) is recorded with every case.
+
+func caEntryKinds(b *baseScenario) map[string]string {
+	rsaK, ecK, edK := pool("rsa2048"), pool("ecdsa256"), pool("ed1")
+	blk := func(typ string, der []byte) string {
+		return string(pem.EncodeToMemory(&pem.Block{Type: typ, Bytes: der}))
+	}
+	kinds := map[string]string{
+		"public-key-rsa-pkix":                string(rsaK.PubPEM),
+		"public-key-ec":                      string(ecK.PubPEM),
+		"public-key-ed25519":                 string(edK.PubPEM),
+		"private-key-pkcs8-rsa":              string(rsaK.PrivPEM),
+		"private-key-pkcs8-ec":               string(ecK.PrivPEM),
+		"private-key-pkcs8-ed25519":          string(edK.PrivPEM),
+		"empty":                              "",
+		"text":                               "this is not PEM at all\n",
+		"begin-only":                         "-----BEGIN CERTIFICATE-----\nAAAA",
+		"empty-block":                        "-----BEGIN CERTIFICATE-----\n-----END CERTIFICATE-----\n",
+		"certificate-garbage-der":            blk("CERTIFICATE", []byte{0x30, 0x03, 0x01, 0x02, 0x03}),
+		"certificate-zero-length":            blk("CERTIFICATE", []byte{}),
+		"certificate-label-holds-public-key": blk("CERTIFICATE", func() []byte { d, _ := pem.Decode(rsaK.PubPEM); return d.Bytes }()),
+		"public-key-label-holds-certificate": blk("PUBLIC KEY", b.ca.Cert.Raw),
+		"key-then-certificate":               string(ecK.PubPEM) + string(b.ca.PEM),
+		"certificate-then-key":               string(b.ca.PEM) + string(ecK.PrivPEM),
+		"private-key-then-certificate":       string(rsaK.PrivPEM) + string(b.ca.PEM),
+		"leaf-certificate":                   b.leaf.Key.KeyVal.Certificate,
+		"valid-ca-certificate":               string(b.ca.PEM),
+		"one-mebibyte-block":                 "-----BEGIN CERTIFICATE-----\n" + strings.Repeat("QUFBQUFBQUFBQUFBQUFBQUFBQUFBQUFBQUFBQUFBQUFBQUFBQUFBQUFBQUFBQUFBQUFB\n", 16000) + "-----END CERTIFICATE-----\n",
+		"one-mebibyte-public-key-block":      "-----BEGIN PUBLIC KEY-----\n" + strings.Repeat("QUFBQUFBQUFBQUFBQUFBQUFBQUFBQUFBQUFBQUFBQUFBQUFBQUFBQUFBQUFBQUFBQUFB\n", 16000) + "-----END PUBLIC KEY-----\n",
+	}
+	kinds["certificate-truncated-der"] = blk("CERTIFICATE", b.ca.Cert.Raw[:len(b.ca.Cert.Raw)/2])
+	if k, ok := rsaK.Signer.(*rsa.PrivateKey); ok {
+		kinds["private-key-pkcs1"] = blk("RSA PRIVATE KEY", x509.MarshalPKCS1PrivateKey(k))
+		kinds["public-key-pkcs1"] = blk("RSA PUBLIC KEY", x509.MarshalPKCS1PublicKey(&k.PublicKey))
+	}
+	if k, ok := ecK.Signer.(*ecdsa.PrivateKey); ok {
+		if der, err := x509.MarshalECPrivateKey(k); err == nil {
+			kinds["private-key-sec1"] = blk("EC PRIVATE KEY", der)
+		}
+	}
+	if der, err := x509.CreateCertificateRequest(rand.Reader, &x509.CertificateRequest{Subject: pkix.Name{CommonName: "csr"}}, ecK.Signer); err == nil {
+		kinds["certificate-request"] = blk("CERTIFICATE REQUEST", der)
+		kinds["certificate-label-holds-request"] = blk("CERTIFICATE", der)
+	}
+	return kinds
+}
+
+func genHostileCAEntries(b *baseScenario) []job {
+	var jobs []job
+	kp := pool("ed1")
+	kinds := caEntryKinds(b)
+	cc := intoto.CertificateConstraint{CommonName: "*", DNSNames: []string{"*"}, Emails: []string{"*"}, Organizations: []string{"*"}, Roots: []string{"*"}, URIs: []string{"*"}}
+	certName, certFile := linkSignedBy("build", b.leaf.Key, false)
+	keyLinkFile := signedFile(mkLink("build", nil, nil), false, kp)
+	dir := &DirSpec{Files: map[string][]byte{certName: certFile, linkFileName("build", kp.Pub): keyLinkFile}}
+	entry := func(id, content string) intoto.Key {
+		k := b.ca.Key
+		k.KeyID = id
+		k.KeyVal.Certificate = content
+		return k
+	}
+	const klass = "hostile-ca-entries"
+	for _, kn := range lib.SortedKeys(kinds) {
+		content := kinds[kn]
+		for _, where := range []string{"rootcas", "intermediatecas", "rootcas next to a valid root", "caller intermediates", "sublayout rootcas", "sublayout intermediatecas"} {
+			l := certStepLayout(b, []intoto.CertificateConstraint{cc})
+			l.Steps[0].PubKeys = []string{kp.Pub.KeyID}
+			var inter [][]byte
+			d := dir
+			switch where {
+			case "rootcas":
+				l.RootCas = map[string]intoto.Key{"aa11": entry("aa11", content)}
+			case "intermediatecas":
+				l.IntermediateCas = map[string]intoto.Key{"bb22": entry("bb22", content)}
+			case "rootcas next to a valid root":
+				l.RootCas["cc33"] = entry("cc33", content)
+			case "caller intermediates":
+				inter = [][]byte{b.ca.PEM, []byte(content)}
+			default:
+				// the link of the step is a layout signed by the authorised functionary; its CA entries are hostile
+				sub := certStepLayout(b, []intoto.CertificateConstraint{cc})
+				sub.Steps[0].PubKeys = []string{kp.Pub.KeyID}
+				if where == "sublayout rootcas" {
+					sub.RootCas = map[string]intoto.Key{"aa11": entry("aa11", content)}
+				} else {
+					sub.IntermediateCas = map[string]intoto.Key{"bb22": entry("bb22", content)}
+				}
+				subDir := fmt.Sprintf("build.%.8s", kp.Pub.KeyID)
+				d = &DirSpec{Files: map[string][]byte{linkFileName("build", kp.Pub): signedFile(sub, false, kp),
+					subDir + "/" + linkFileName("build", kp.Pub): keyLinkFile, subDir + "/" + certName: certFile}}
+			}
+			note := fmt.Sprintf("%s: %s", where, kn)
+			lf := signedFile(l, false, kp)
+			jobs = append(jobs, job{klass: klass, in: &Input{Entry: "verify", Note: note, File: lf, Dir: d, KeyName: "ed1", Inter: inter}})
+			if !strings.HasPrefix(where, "sublayout") {
+				jobs = append(jobs, job{klass: klass, in: &Input{Entry: "layoutcerts", Note: note + " (LoadLayoutCertificates)", File: lf, Inter: inter}})
+			}
+			if where == "rootcas" || where == "caller intermediates" {
+				jobs = append(jobs, job{klass: klass, in: &Input{Entry: "verify", Note: note + " (DSSE layout, run directory)", File: signedFile(l, true, kp), Dir: d, KeyName: "ed1", Inter: inter, RunDir: true}})
+			}
+		}
+	}
+	return jobs
+}
+
+// execLayoutCerts: LoadLayoutCertificates directly, with the caller-supplied intermediates alone and on top of the layout's
+func execLayoutCerts(r *recorder, in *Input) Result {
+	l, ok := loadLayout(in.File)
+	if !ok {
+		r.call("LoadMetadata(layout)", func() error { return fmt.Errorf("not a layout") })
+		return r.finish(ERR)
+	}
+	primary := r.call("LoadLayoutCertificates", func() error { _, _, err := intoto.LoadLayoutCertificates(l, in.Inter); return err })
+	r.call("LoadLayoutCertificates(empty layout, same intermediates)", func() error {
+		_, _, err := intoto.LoadLayoutCertificates(intoto.Layout{}, in.Inter)
+		return err
+	})
+	for i, k := range layoutKeysOf(l) {
+		k := k
+		r.call(fmt.Sprintf("LoadLayoutCertificates(entry %d as caller intermediate)", i), func() error {
+			_, _, err := intoto.LoadLayoutCertificates(intoto.Layout{}, [][]byte{[]byte(k.KeyVal.Certificate), nil, {}})
+			return err
+		})
+	}
+	return r.finish(primary)
 }
 
 var _ = json.Marshal
